@@ -30,7 +30,7 @@ CNok(r) ==
 SEPok(r) ==
   LET ks == [ax \in Axes |-> [lo |-> r.klo[ax], v |-> r.kv[ax], bc |-> r.bc[ax]]]
       a == Arr(r.dlo, r.dn, r.d) IN
-  /\ ~r.err /\ r.res = 0
+  /\ ~r.crash /\ ~r.err /\ r.res = 0
   /\ \A o \in Orders : SameVals(r.o, SepInOrder(ks, a, o).v)
 (* ---- ArrayFilterUsingRealDFTWithPadding -------------------------------- *)
 DFok(r) ==
@@ -114,8 +114,16 @@ MetzTrunc(r) ==
 \* C19-realinv2: inverse_fourier_for_real_data refuses arrays whose last dimension has (real) length 2, so the
 \* padded-DFT filter cannot be used with a padded length of 2 in the last dimension
 RealInv2(r) == r.e = "DF" /\ r.err /\ r.kn[3] = 2
+\* C19-sepparse-empty: since 532e517b9 the SeparableConvolutionImageFilter coefficient constructor stores {0} as the
+\* parsing coefficients of a direction that has no kernel; a filter parsed from its parameter_info() then
+\* multiplies by 0 in that direction (output all zero) instead of not filtering it
+SepParseEmpty(r) ==
+  /\ r.e = "SEP" /\ r.via = 5 /\ ~r.err /\ ~r.crash /\ r.res = 0
+  /\ \E ax \in Axes : Len(r.kv[ax]) = 0
+  /\ Len(r.o) = Size(r.dn) /\ \A q \in 1..Len(r.o) : r.o[q] = 0
 Classify(r) ==
   IF ~Has(r, "e") THEN "new"
+  ELSE IF r.e = "SEP" /\ SepParseEmpty(r) THEN "C19-sepparse-empty"
   ELSE IF r.e = "CN" /\ TrivialND(r) THEN "C19-trivialnd"
   ELSE IF r.e = "MEAN" /\ MetzTrunc(r) THEN "C19-metztrunc"
   ELSE IF r.e = "DF" /\ RealInv2(r) THEN "C19-realinv2"
